@@ -19,6 +19,7 @@ EXPLANATION = (
     "name; (RELEASE) guards own their borrow and are never leaked. The derive macro is analysed through its outputs, not for all inputs.")
 ASSUMPTIONS = ["derive expansions outside the corpus are not covered (exhaustive: false for the derive clause)", "atomic_refcell borrow semantics"]
 TRUSTED = ["rustc nightly MIR construction and macro expansion", "shred-facts driver", "shredlint analyses"]
+TECHNIQUE = 'static: structural induction leaves on MIR - leaf impls (declared ids = borrowed primitives), 26 tuple impls x 4 methods (one delegation per member, results appended), expanded derive corpus, StaticAccessor forwarding, guard leak inventory, compile_fail witness'
 RULE_TEXT = "one obligation per (impl, method) for composites and per leaf impl; floors: 26 tuple impls x 4 methods, 6 leaves, >= 12 corpus derives"
 
 
